@@ -293,4 +293,93 @@ theorem getScene_refines (dist : Int → Int → Rat) (pts : List Pt) (ids pids 
   simp [raster_get_scene, raster_get_scene.body, Py.seq, Py.bind, tree_traverse_l_refines _ ids pids r hR h0 hrows _ F,
     spec_scene dist pts r none [] hok, Py.unwrapCb, Py.finish]
 
+/-! ### the case analysis is the model's `edgeIsBall` / `edgeBall` rule -/
+
+/-- the solid of the model for an edge between the balls `(a, ra)` and `(b, rb)` (`Model/Images.lean`): the larger ball when one end ball
+contains the other (`Img.edgeIsBall`, `Img.edgeBall`), else the round cone -/
+def modelSolid (a b : Rat × Rat × Rat) (ra rb : Rat) : Py.Sdf Rat :=
+  if Img.edgeIsBall a b ra rb then .sphere (Img.edgeBall a b ra rb).1 (Img.edgeBall a b ra rb).2 else .cone a b ra rb
+
+/-- **the generated edge case analysis is the model's rule** whenever the distance handed to the comparison is the Euclidean distance of the two
+centres (non-negative, its square the squared distance) -/
+theorem edgeSolid_model (dist : Int → Int → Rat) (pts : List Pt) (n c : Int) (hd0 : 0 ≤ dist c n)
+    (hd : dist c n * dist c n = Img.sqd (P pts n).1 (P pts c).1) :
+    edgeSolid dist pts n c = modelSolid (P pts n).1 (P pts c).1 (P pts n).2 (P pts c).2 := by
+  have key : dist c n ≤ |(P pts n).2 - (P pts c).2|
+      ↔ Img.sqd (P pts n).1 (P pts c).1 ≤ ((P pts n).2 - (P pts c).2) * ((P pts n).2 - (P pts c).2) := by
+    rw [← hd, ← abs_mul_abs_self ((P pts n).2 - (P pts c).2)]
+    exact mul_self_le_mul_self_iff hd0 (abs_nonneg _)
+  unfold edgeSolid modelSolid Img.edgeIsBall Img.edgeBall
+  by_cases h : dist c n ≤ |(P pts n).2 - (P pts c).2|
+  · have h' := key.mp h
+    by_cases h2 : (P pts n).2 ≥ (P pts c).2 <;> simp [h, h', h2]
+  · have h' : ¬ _ := fun x => h (key.mpr x)
+    simp [h, h']
+
+/-! ## `transform` as a whole -/
+
+section transform
+variable {σ ψ φ : Type} [Inhabited σ] [Inhabited ψ] [Inhabited φ]
+variable (sample : σ → Py.RangeSampler Rat → List (Py.Sdf Rat) → σ × ψ) (toFrame : ψ → φ)
+
+/-- the model of the frame loop: every sampler is handed to the (stateful) `sample` callback together with the scene, in order; one frame each -/
+def runFrames (scene : List (Py.Sdf Rat)) : List (Py.RangeSampler Rat) → σ × List φ → σ × List φ
+  | [], acc => acc
+  | s :: ss, acc => runFrames scene ss ((sample acc.1 s scene).1, acc.2 ++ [toFrame (sample acc.1 s scene).2])
+
+theorem frames_loop (dist : Int → Int → Rat) : ∀ (ss : List (Py.RangeSampler Rat)) (v : raster_transform.V σ ψ φ Rat),
+    ∃ s' x' f', Py.forEach (raster_transform.for1 sample Py.ratFld Py.ratFlr dist toFrame) ss v
+      = .next { v with sampler := s', voxel := x', frame := f',
+                       cbs := (runFrames sample toFrame v.scene ss (v.cbs, v.yielded_)).1,
+                       yielded_ := (runFrames sample toFrame v.scene ss (v.cbs, v.yielded_)).2 }
+  | [], v => ⟨v.sampler, v.voxel, v.frame, by cases v; simp [Py.forEach, runFrames]⟩
+  | s :: ss, v => by
+    obtain ⟨s', x', f', e⟩ := frames_loop dist ss
+      { v with sampler := s, cbs := (sample v.cbs s v.scene).1, voxel := (sample v.cbs s v.scene).2, frame := toFrame (sample v.cbs s v.scene).2,
+               yielded_ := v.yielded_ ++ [toFrame (sample v.cbs s v.scene).2] }
+    refine ⟨s', x', f', ?_⟩
+    simp only [Py.forEach, raster_transform.for1, Py.seq]
+    rw [e]
+    simp [runFrames]
+
+theorem frames_finish (dist : Int → Int → Rat) (ss : List (Py.RangeSampler Rat)) (v : raster_transform.V σ ψ φ Rat) :
+    (Py.finish (default : Unit) (Py.forEach (raster_transform.for1 sample Py.ratFld Py.ratFlr dist toFrame) ss v)).map
+        (fun r => (r.1.yielded_, r.1.cbs, r.2))
+      = some ((runFrames sample toFrame v.scene ss (v.cbs, v.yielded_)).2, (runFrames sample toFrame v.scene ss (v.cbs, v.yielded_)).1, ()) := by
+  obtain ⟨s', x', f', e⟩ := frames_loop sample toFrame dist ss v
+  rw [e]
+  rfl
+
+/-- the corners of the model's bounding box -/
+def boxLo (pts : List Pt) : Rat × Rat × Rat := ((bboxAx (·.1.1) pts).1, (bboxAx (·.1.2.1) pts).1, (bboxAx (·.1.2.2) pts).1)
+def boxHi (pts : List Pt) : Rat × Rat × Rat := ((bboxAx (·.1.1) pts).2, (bboxAx (·.1.2.1) pts).2, (bboxAx (·.1.2.2) pts).2)
+
+/-- number of z slices of the raster -/
+def nSlices (pts : List Pt) (sz : Rat) : Nat := (axisCentres (boxLo pts).2.2 (boxHi pts).2.2 sz).length
+
+/-- **`ToImageStack.transform` as translated on this run** (`verbose` falsy, no `ranges`): for every non-empty table of nodes, every resolution
+with a positive z component, every stateful sampler callback and whatever scene the generated `_get_scene` returns, the generator yields exactly
+one frame per model sampler — the slices `Img.axisCentres` of the model's bounding box `Img.bbox`, in order of increasing z —, every sampler
+being handed that scene; fuel = number of slices + 1 suffices for the slice loop -/
+theorem transform_refines (dist : Int → Int → Rat) (pts : List Pt) (hne : pts ≠ []) (sx sy sz : Rat) (hsz : 0 < sz) (ids pids : List Int)
+    (scene : List (Py.Sdf Rat)) (F : Nat) (s0 : σ)
+    (hsc : raster_get_scene dist (nSlices pts sz + 1 + F) ids pids (rowsOf pts) (radii pts) = some scene) :
+    raster_transform sample Py.ratFld Py.ratFlr dist toFrame (nSlices pts sz + 1 + F) ids pids (rowsOf pts) (radii pts) [sx, sy, sz] s0
+      = some ((runFrames sample toFrame scene (modelSamplers (boxLo pts) (boxHi pts) (sx, sy, sz)) (s0, [])).2,
+              (runFrames sample toFrame scene (modelSamplers (boxLo pts) (boxHi pts) (sx, sy, sz)) (s0, [])).1, ()) := by
+  obtain ⟨hmin, hmax⟩ := bbox_refines pts hne
+  rw [bcast_rows] at hmin hmax
+  simp only [Option.bind_some] at hmin hmax
+  obtain ⟨t2, h2, h2'⟩ := Option.map_eq_some_iff.mp hmin
+  obtain ⟨t4, h4, h4'⟩ := Option.map_eq_some_iff.mp hmax
+  have hs := samplers_refines (boxLo pts).1 (boxLo pts).2.1 (boxLo pts).2.2 (boxHi pts).1 (boxHi pts).2.1 (boxHi pts).2.2 sx sy sz hsz F
+  simp only [raster_transform, raster_transform.body, Py.seq, Py.bind, hsc, bcast_rows, h2, h2', h4, h4']
+  simp only [boxLo, boxHi, nSlices] at hs ⊢
+  rw [hs]
+  simp only
+  rw [frames_finish]
+  rfl
+
+end transform
+
 end RefineRaster
